@@ -292,7 +292,7 @@ def object_stage(prop, tier):
         if r.error or r.violation:
             return {"machinery": [f"RegexObject: {(r.error or r.violation)[:500]}"]}
         rp, fp = os.path.join(work, "object.json"), os.path.join(work, "object_fail.ndjson")
-        p = subprocess.run([vh, "object", "-in", out, "-report", rp, "-fail", fp], capture_output=True, text=True, timeout=3000)
+        p = subprocess.run([vh, "object", "-in", out, "-props", prop, "-report", rp, "-fail", fp], capture_output=True, text=True, timeout=3000)
         os.remove(out)
         if p.returncode != 0:
             return {"machinery": ["object replay: " + p.stderr[-500:]]}
